@@ -74,8 +74,9 @@ type ChainReq struct {
 	Flush    bool   `json:"flush,omitempty"`
 	Early    bool   `json:"early_close,omitempty"`
 	AddSvc   bool   `json:"add_service_afterwards,omitempty"`
-	WFail    int    `json:"client_gone_at_write,omitempty"` // k>0: the client's writer fails from underlying write #k-1 on
-	BodyGzip bool   `json:"gzip_request_body,omitempty"`    // post target: the entity is sent gzip-coded and read with ReadEntity
+	WFail    int    `json:"client_gone_at_write,omitempty"`             // k>0: the client's writer fails from underlying write #k-1 on
+	BodyGzip bool   `json:"gzip_request_body,omitempty"`                // post target: the entity is sent gzip-coded and read with ReadEntity
+	AddCE    bool   `json:"handler_adds_content_encoding_br,omitempty"` // the route function declares its own payload br-coded: Header().Add, a layered coding
 
 	payload []byte
 	res     [2]*ChainRes // 0: simulated run, 1: sequential twin
@@ -320,6 +321,9 @@ func (e *chainEnv) routeFunc(req *restful.Request, resp *restful.Response) {
 		}
 	}
 	e.crash("handler:before")
+	if r.AddCE {
+		resp.AddHeader("Content-Encoding", "br")
+	}
 	e.writeChunks(resp, r, resp.Flush)
 	if r.Early {
 		if cw, ok := resp.ResponseWriter.(*restful.CompressingResponseWriter); ok {
@@ -701,6 +705,7 @@ type chainKnobs struct {
 	early        bool
 	warm         bool // allow a warm-up phase before all filters are registered
 	wfaults      int  // permille of requests whose client goes away (writer starts failing)
+	addCE        bool // a share of the route functions add their own Content-Encoding value
 }
 
 func genFilters(tp *sim.Tape, k chainKnobs, max int) []FSpec {
@@ -854,6 +859,9 @@ func genChainReq(tp *sim.Tape, cfg *ChainCfg, k chainKnobs, id int) *ChainReq {
 	}
 	if r.Target == "post" && k.encoding {
 		r.BodyGzip = tp.Bool()
+	}
+	if k.addCE && isRouted(r.Target) && r.PanicAt == "" && tp.Chance(50) {
+		r.AddCE = true
 	}
 	if r.Early {
 		// a handler that closes the response writer itself is only meaningful if nothing is written afterwards
